@@ -59,6 +59,7 @@ pub struct Exec {
     pub model: ModelOut,
     pub wall_us: u128,
     pub wait_stats: (u64, u64),
+    pub decisions: Vec<(u8, u8)>,
 }
 
 pub fn find_shape(shapes: &[&'static ShapeInfo], src: Src, shape: &str) -> Option<&'static ShapeInfo> {
@@ -105,7 +106,9 @@ pub fn exec(shapes: &[&'static ShapeInfo], case: Case) -> Exec {
         None => (false, vec![]),
     };
     let wait_stats = ctx.sched.as_ref().map(|s| s.wait_stats()).unwrap_or((0, 0));
+    let decisions = ctx.sched.as_ref().map(|s| s.decisions()).unwrap_or_default();
     let e = Exec {
+        decisions,
         wait_stats,
         case,
         info,
